@@ -112,6 +112,10 @@ func (*Options).populateReporter
   ensures @shorten [C15] o.ReporterConfig.ShortenStrings == (old(o.ReporterConfig.ShortenStrings) || AnySet(c, "shorten", 0, LineageLen(c)))
   ensures @use-old-reg-reporter [C15] o.ReporterConfig.UseOldRegReporter == (old(o.ReporterConfig.UseOldRegReporter) || AnySet(c, "use-old-reg-reporter", 0, LineageLen(c)))
   ensures @output [C15] o.ReporterConfig.Output == old(o.ReporterConfig.Output)
+  // the template name is taken from the innermost command-line level that sets it, else left alone
+  ensures @template-name [C15] (FirstSet(c, "internal-template-name", 0, LineageLen(c)) == 0 - 1 ==> o.ReporterConfig.InternalTemplateName == old(o.ReporterConfig.InternalTemplateName)) && (FirstSet(c, "internal-template-name", 0, LineageLen(c)) >= 0 ==> o.ReporterConfig.InternalTemplateName == CtxString(LineageAt(c, FirstSet(c, "internal-template-name", 0, LineageLen(c))), "internal-template-name"))
+  // the command's own selection flags are copied as given
+  ensures @selection-flags [C15 C16 C02] o.ReporterConfig.SingleFood == CtxString(c, "single-food") && o.ReporterConfig.ElementGroupByFood == BoolOfStr(CtxString(c, "group-food")) && o.ReporterConfig.SingleElement == CtxString(c, "single-element")
   // print/stats write dates in the layout they are read in (the --date-format flag governs both)
   ensures @print-layout [C14] o.ReporterConfig.DateFormat == o.GlobalConfig.DateFormat
   loop 1 {
@@ -125,8 +129,10 @@ func (*Options).populateReporter
     invariant @totals-only o.ReporterConfig.TotalsOnly == (old(o.ReporterConfig.TotalsOnly) || AnySet(c, "totals-only", i + 1, LineageLen(c)))
     invariant @shorten o.ReporterConfig.ShortenStrings == (old(o.ReporterConfig.ShortenStrings) || AnySet(c, "shorten", i + 1, LineageLen(c)))
     invariant @use-old-reg-reporter o.ReporterConfig.UseOldRegReporter == (old(o.ReporterConfig.UseOldRegReporter) || AnySet(c, "use-old-reg-reporter", i + 1, LineageLen(c)))
+    invariant @template-name (FirstSet(c, "internal-template-name", i + 1, LineageLen(c)) == 0 - 1 ==> o.ReporterConfig.InternalTemplateName == old(o.ReporterConfig.InternalTemplateName)) && (FirstSet(c, "internal-template-name", i + 1, LineageLen(c)) >= 0 ==> o.ReporterConfig.InternalTemplateName == CtxString(LineageAt(c, FirstSet(c, "internal-template-name", i + 1, LineageLen(c))), "internal-template-name"))
     // proof hints at loop level (not bound to a particular call, so hoisting c.Lineage() keeps the proof)
-    pre { unfold AnySet(c, "csv", LineageLen(c), LineageLen(c)); unfold AnySet(c, "no-color", LineageLen(c), LineageLen(c)); unfold AnySet(c, "collapse-last", LineageLen(c), LineageLen(c)); unfold AnySet(c, "collapse", LineageLen(c), LineageLen(c)); unfold AnySet(c, "no-totals", LineageLen(c), LineageLen(c)); unfold AnySet(c, "totals-only", LineageLen(c), LineageLen(c)); unfold AnySet(c, "shorten", LineageLen(c), LineageLen(c)); unfold AnySet(c, "use-old-reg-reporter", LineageLen(c), LineageLen(c)) }
+    pre { unfold FirstSet(c, "internal-template-name", LineageLen(c), LineageLen(c)); unfold AnySet(c, "csv", LineageLen(c), LineageLen(c)); unfold AnySet(c, "no-color", LineageLen(c), LineageLen(c)); unfold AnySet(c, "collapse-last", LineageLen(c), LineageLen(c)); unfold AnySet(c, "collapse", LineageLen(c), LineageLen(c)); unfold AnySet(c, "no-totals", LineageLen(c), LineageLen(c)); unfold AnySet(c, "totals-only", LineageLen(c), LineageLen(c)); unfold AnySet(c, "shorten", LineageLen(c), LineageLen(c)); unfold AnySet(c, "use-old-reg-reporter", LineageLen(c), LineageLen(c)) }
+    unfold FirstSet(c, "internal-template-name", i, LineageLen(c))
     unfold AnySet(c, "csv", i, LineageLen(c))
     unfold AnySet(c, "no-color", i, LineageLen(c))
     unfold AnySet(c, "collapse-last", i, LineageLen(c))
